@@ -254,6 +254,21 @@ class Elab:
                 elif k == "adiabatic":
                     Tp, al, cp = m.get("potential mantle temperature", -1), m.get("thermal expansion coefficient", -1), m.get("specific heat", -1)
                     ts.append("STAdiabatic (%s, %s, %s, %s, %s, %s)" % (mn, mx, o, ml(self.Tp if Tp < 0 else Tp), ml(self.alpha if al < 0 else al), ml(self.cp if cp < 0 else cp)))
+                elif k == "mass conserving" and not fault and isinstance(m.get("spreading velocity", 0.05), (int, float)) \
+                        and isinstance(m.get("subducting velocity", 0.05), (int, float)) and not m.get("apply spline", False):
+                    dtr = PI / 180.0 if self.spherical else 1.0
+                    ridges = [[(p[0] * dtr, p[1] * dtr) for p in ridge] for ridge in m["ridge coordinates"]]
+                    sv = float(m.get("spreading velocity", 0.05))
+                    al, cp, kp = m.get("thermal expansion coefficient", -1), m.get("specific heat", -1), m.get("thermal diffusivity", -1)
+                    Tp = self.Tp if self.Tp >= 0 else m.get("potential mantle temperature", -1)
+                    ts.append("STMass {mc_min=%s; mc_max=%s; mc_op=%s; mc_density=%s; mc_conductivity=%s; mc_coupling=%s; mc_forearc=%s; mc_taper=%s; "
+                              "mc_alpha=%s; mc_cp=%s; mc_kappa=%s; mc_adiabatic=%s; mc_Tp=%s; mc_Ts=%s; mc_ridges=%s; mc_vels=%s; mc_sub=%s; mc_plate_reference=%s}" % (
+                                  mn, mx, o, ml(m.get("density", 3300)), ml(m.get("thermal conductivity", 3.3)), ml(m.get("coupling depth", 100e3)),
+                                  ml(m.get("forearc cooling factor", 1.0)), ml(m.get("taper distance", 100e3)),
+                                  ml(self.alpha if al < 0 else al), ml(self.cp if cp < 0 else cp), ml(self.kappa if kp < 0 else kp),
+                                  "true" if m.get("adiabatic heating", True) else "false", ml(Tp), ml(self.Ts),
+                                  mlist([mlist([mpt(p) for p in ridge]) for ridge in ridges]), mlist([mlist([ml(sv) for _ in ridge]) for ridge in ridges]),
+                                  ml(m.get("subducting velocity", 0.05)), "true" if m.get("reference model name", "half space model") == "plate model" else "false"))
                 elif k == "plate model" and not fault:
                     al, cp = m.get("thermal expansion coefficient", -1), m.get("specific heat", -1)
                     Tp = self.Tp if self.Tp >= 0 else m.get("potential mantle temperature", -1)
